@@ -14,6 +14,13 @@ HARNESSES = {
         "libs": LIBS_IO,
         "variants": ["san", "san-ndebug"],
     },
+    "c09": {
+        "source": "c09.cpp",
+        "sim_sources": SIM_IO,
+        "wraps": WRAPS_IO,
+        "libs": ["-lz", "-lbz2"],
+        "variants": ["san"],
+    },
     "c19": {
         "source": "c19.cpp",
         "sim_sources": ["sim.cpp", "sanitizer_opts.cpp"],
@@ -109,4 +116,21 @@ PROPERTIES["C03"] = {
     "components_real": READER_REAL,
     "components_stubbed": READER_STUB,
     "assumptions": COMMON_ASSUMPTIONS + ["restricted claim: the neighbourhood of valid files that storage faults produce is sampled; no coverage-guided search over all byte strings (that is fuzzing, a different technique family)"],
+}
+
+PROPERTIES["C09"] = {
+    "level": "fault_enumeration",
+    "budget_s": {"quick": 80, "thorough": 1500},
+    "rule": "one evaluation = one compressed file built from 1-5 payload pieces (sizes around 0, 1, 4096, 5000, 10240, 65536 and random; empty pieces allowed), each piece compressed by zlib/libbz2 called directly by the harness and concatenated, read through the real gzip/bzip2 Decompressor classes from a simulated fd (short reads, hook-varied output buffer size incl. the shipped 1 MiB) or from memory (clamped output window), without fault, truncated at a length biased to stream boundaries, or with one corrupted byte; mode 'own' reads back what the library's own Compressor wrote; mode 'enum' enumerates for one small file every truncation length and three corruptions of every byte. "
+            "Non-trivial = multi-stream, faulted, or non-default piece size; distinct = distinct event-log signature (file ops).",
+    "modes": [
+        {"mode": "clean", "harness": "c09", "runs": {"quick": 60000, "thorough": 1500000}},
+        {"mode": "fault", "harness": "c09", "runs": {"quick": 60000, "thorough": 1500000}},
+        {"mode": "own", "harness": "c09", "runs": {"quick": 15000, "thorough": 300000}},
+        {"mode": "enum", "harness": "c09", "runs": {"quick": 2500, "thorough": 60000}},
+    ],
+    "expected_probes": ["stream ends exactly on a 4096/5000/8192-byte boundary", "multi-stream file", "truncated file", "corrupted file", "truncation detected", "corruption detected", "enumerated fault points"],
+    "components_real": ["GzipDecompressor, GzipBufferDecompressor, Bzip2Decompressor, Bzip2BufferDecompressor, GzipCompressor, Bzip2Compressor, CompressionFactory", "zlib and libbz2 (statically linked, unmodified)", "glibc stdio over a cookie stream"],
+    "components_stubbed": ["open/read/write/close/dup/fsync/fstat/lseek on /sim/ paths (in-memory file system)", "payload streams are produced by the harness with zlib/libbz2 directly (reference compressor)"],
+    "assumptions": ["single-threaded: the decompressor classes are driven directly, no scheduler decisions are involved", "the reference decompression is the identity on the generated payload (the harness compressed it itself)", "sizes of 1 MiB and several MiB are only reached in the thorough tier through the shipped buffer size with payloads up to 200 KB; MiB-sized payloads are not generated"],
 }
